@@ -100,6 +100,7 @@ def family(repo: Repo) -> lazy.Family:
             break
     fam = lazy.Family(repo, root_mod, ROOT, members)
     fam.compute_roles(texts)
+    fam.texts = texts  # type: ignore[attr-defined]
     fam.solve()
     return fam
 
@@ -136,15 +137,36 @@ def _by_design(ctx: RuleCtx, mod: Module, qn: str, fn: ast.AST, accs: T.List[laz
         if cmp_:
             member.append(a)
             continue
-        loads = {n.attr for n in ast.walk(a.top) if isinstance(n, ast.Attribute) and n.attr in STORES and attr_chain(n.value) == a.key
-                 and isinstance(n.ctx, ast.Load)}
-        missing = [s for s in lazy.QUEUES if s not in loads]
-        ctx.require(not missing and isinstance(a.node.ctx, ast.Load), f'{qn}: `{short(a.top, 70)}` reads _container together with pre and post (by design unflushed)',
-                    mod, qn, a.node, f'`{short(a.top, 80)}` reads {a.key}._container of a possibly unflushed list but not {a.key}.' +
-                    f', {a.key}.'.join(missing) + ': pending entries are not accounted for', a.node)
+        # other reads (len(self._container) + ...): every path through this read must also read self.pre and self.post
+        allp = enumerate_paths(fn.body, unroll=1)  # type: ignore[attr-defined]
+        seen_on = 0
+        miss: T.Optional[T.Tuple[T.List[str], str]] = None
+        for p in allp:
+            nodes = [ev.node for ev in p.events if ev.node is not None]
+            roots: T.List[ast.AST] = []
+            for n_ in nodes:
+                roots += [n_.iter] if isinstance(n_, (ast.For, ast.AsyncFor)) else [i.context_expr for i in n_.items] if isinstance(n_, (ast.With, ast.AsyncWith)) else [n_]
+            if not any(x is a.node for r in roots for x in ast.walk(r)):
+                continue
+            seen_on += 1
+            loads = {x.attr for r in roots for x in ast.walk(r) if isinstance(x, ast.Attribute) and x.attr in STORES and attr_chain(x.value) == a.key
+                     and isinstance(x.ctx, ast.Load)}
+            missing = [s_ for s_ in lazy.QUEUES if s_ not in loads]
+            if missing:
+                opaque = tabs._opaque_on(p)
+                if opaque:
+                    raise Undecided(f'{qn}: {norm(a.node)} is read unflushed and the path runs `{opaque}`, which may account for the pending queues')
+                miss = miss or (missing, p.describe()[:140])
+        if not seen_on:
+            raise Undecided(f'{qn}: no enumerated path contains the read of {norm(a.node)}')
+        ctx.require(miss is None and isinstance(a.node.ctx, ast.Load), f'{qn}: `{short(a.top, 70)}`: every path that reads _container unflushed also reads pre and post ({seen_on} paths)',
+                    mod, qn, a.node, f'`{short(a.top, 80)}` reads {a.key}._container of a possibly unflushed list, and on the path [{miss[1] if miss else ""}] '
+                    f'{a.key}.{(", " + str(a.key) + ".").join(miss[0]) if miss else ""} is never read: pending entries are not accounted for', a.node)
     if not member:
         return
-    paths = enumerate_paths(fn.body, unroll=1, bool_returns=True)  # type: ignore[attr-defined]
+    cls_name = qn.rsplit('.', 1)[0] if '.' in qn else ''
+    fn_in = tabs._inline(mod, cls_name, fn) if cls_name and mod.has_cls(cls_name) else fn
+    paths = enumerate_paths(fn_in.body, unroll=1, bool_returns=True)  # type: ignore[attr-defined]
     bad: T.Dict[str, T.Tuple[ast.AST, str]] = {}
     n_obs = 0
     for p in paths:
@@ -162,6 +184,8 @@ def _by_design(ctx: RuleCtx, mod: Module, qn: str, fn: ast.AST, accs: T.List[laz
                 continue
             n_obs += 1
             missing = [s for s in STORES if s not in obs]
+            if missing and tabs._opaque_on(p):
+                raise Undecided(f'{qn}: `{left}` is judged absent after looking at {sorted(obs)} and calling `{tabs._opaque_on(p)}`, which may consult the rest')
             if missing:
                 first = next(iter(obs.values()))[1]
                 bad.setdefault(norm(first) + '|' + ','.join(missing),
@@ -173,6 +197,56 @@ def _by_design(ctx: RuleCtx, mod: Module, qn: str, fn: ast.AST, accs: T.List[laz
         if n_obs == 0:
             raise Undecided(f'{qn}: membership read of a possibly unflushed _container, but no path observes it as absent')
         ctx.ok(f'{qn}: on all {n_obs} path(s) that judge an argument absent, _container, pre and post are all consulted ({len(paths)} paths)')
+
+
+def _caller_context(fam: lazy.Family, mod: Module, fn: T.Any, qn: str, cls_key: T.Optional[str], acc: lazy.Access) -> T.Optional[T.Tuple[int, str]]:
+    """A block extracted into a *private* helper that receives the list as a parameter: the state of the parameter is the
+    join of the states of the arguments at all its call sites (the helper must be private, every mention of its name must be
+    a resolvable call from the family classes / its own module).  None: not applicable, the parameter stays dirty."""
+    name = getattr(fn, 'name', '')
+    root = (acc.key or '').split('.')[0]
+    params = [a.arg for a in fn.args.posonlyargs + fn.args.args + fn.args.kwonlyargs]
+    if not name.startswith('_') or name.endswith('__') or root == 'self' or root not in params or acc.key != root:
+        return None
+    # is the access dirty only because of the entry state?  (re-run with the parameter assumed flushed)
+    again = lazy.Analysis(fam, mod, fn, qn, cls_key, entry={root: (lazy.CLEAN, 'assumed flushed at the call')}).run()
+    same = [x for x in again.accesses if x.node is acc.node]
+    if not same or same[0].status[0] != lazy.CLEAN:
+        return None
+    pat = re.compile(r'\b' + re.escape(name) + r'\b')
+    mentions = sum(len(pat.findall(src)) for src in fam.texts.values())  # type: ignore[attr-defined]
+    callers: T.List[T.Tuple[Module, str, T.Any, T.Optional[str]]] = []
+    for m, c in fam.members:
+        for st in c.body:
+            if isinstance(st, (ast.FunctionDef, ast.AsyncFunctionDef)):
+                callers.append((m, f'{c.name}.{st.name}', st, fam.cls_key(m, c)))
+    for q, f in mod.funcs().items():
+        if '.' not in q:
+            callers.append((mod, q, f, None))
+    fam.sites.pop((id(fn), root), None)
+    found = 1   # the def itself
+    for m, q, f, ck in callers:
+        probe = lazy.Analysis(fam, m, f, q, ck)
+        chains = set()
+        for n in ast.walk(f):
+            if isinstance(n, ast.Call):
+                r = fam.resolve_callee(probe, n)
+                if r is not None and r[1] is fn:
+                    found += 1
+                    b = fam.bind(fn, n, r[3])
+                    if b is None:
+                        return (lazy.UNKNOWN, f'call in {q} cannot be bound to the signature')
+                    hit = [x for x in list(n.args) + [k.value for k in n.keywords] if b.get(id(x)) == root]
+                    if not hit or attr_chain(hit[0]) is None:
+                        return (lazy.UNKNOWN, f'call in {q} passes `{short(hit[0]) if hit else "nothing"}` for {root}')
+                    chains.add(attr_chain(hit[0]))
+        if chains:
+            lazy.Analysis(fam, m, f, q, ck, extra_tracked=chains).run()
+    sites = fam.sites.get((id(fn), root), [])
+    if found != mentions or not sites:
+        return None      # referenced in a way that is not a resolvable call (or from elsewhere): keep the conservative entry state
+    worst = max(sites, key=lambda x: x[0][0])
+    return (worst[0][0], f'{len(sites)} call site(s): ' + ', '.join(sorted({w for _, w in sites})) + (f'; {worst[0][1]}' if worst[0][0] != lazy.CLEAN else ''))
 
 
 def _builtin_example(ctx: RuleCtx, fam2: lazy.Family) -> None:
@@ -237,6 +311,13 @@ def r1(ctx: RuleCtx) -> None:
             elif cls_key is not None and a.key == 'self' and an.role == 'design' and isinstance(a.node.ctx, ast.Load):
                 design.append(a)
             else:
+                cc = _caller_context(fam, mod, fn, qn, cls_key, a)
+                if cc is not None and cc[0] == lazy.CLEAN:
+                    ctx.ok(f'{what}: private helper, every caller hands over a flushed list ({cc[1]})')
+                    continue
+                if cc is not None and cc[0] == lazy.UNKNOWN:
+                    undecided.append(f'{what}: private helper, state of the argument at a call site is unknown ({cc[1]})')
+                    continue
                 ctx.violation(mod, qn, a.node,
                               f'{norm(a.node)} is {"written" if not isinstance(a.node.ctx, ast.Load) else "read"} in `{short(a.top, 90)}` while `{a.key}` may hold unflushed '
                               f'pre/post entries: {a.status[1]}; no {a.key}.flush_pre_post() on that path', a.node)
